@@ -89,22 +89,22 @@ def _validate_data_flow_compatibility(inspection: PipelineInspection) -> None:
         - Errors are added to the node that has the incompatible input type
         - Only validates consecutive data-processing nodes
     """
-    for i in range(len(inspection.nodes) - 1):
-        current_node = inspection.nodes[i]
-        next_node = inspection.nodes[i + 1]
-
-        # Skip validation if either node has no data types (e.g., context processors)
-        if current_node.output_type is None or next_node.input_type is None:
-            continue
-
-        # Check if output type of current node is compatible with input type of next node
-        # Compatible means: equal types OR output is a subclass of input (same as runtime)
-        if not _is_compatible(current_node.output_type, next_node.input_type):
+    # Context-only nodes (no data types) pass data through unchanged, so the
+    # effective upstream of a data node is the last node that declared an output type.
+    current_node = None
+    for next_node in inspection.nodes:
+        if (
+            current_node is not None
+            and next_node.input_type is not None
+            and not _is_compatible(current_node.output_type, next_node.input_type)
+        ):
             error_msg = (
                 f"Data type incompatibility: receives {next_node.input_type.__name__} "
                 f"but previous node (Node {current_node.index}) outputs {current_node.output_type.__name__}"
             )
             next_node.errors.append(error_msg)
+        if next_node.output_type is not None:
+            current_node = next_node
 
 
 def validate_pipeline(inspection: PipelineInspection) -> None:
